@@ -241,6 +241,12 @@ def run_config(frontend, prefix, principal, flagseq):
                             m = http(srv.port, "MKCALENDAR", c2)
                             if m.status in range(200, 300):
                                 user["cal2"] = c2
+                                # the user describes the collections: free text of several
+                                # paragraphs, with the characters configuration files care about
+                                for target, text in ((c2, "Second calendar\n\nshared with the team; 100% [draft] #1 = a:b"),
+                                                     (cal, "Main\n\ncalendar")):
+                                    http(srv.port, "PROPPATCH", target, [("Content-Type", "text/xml")],
+                                         gamma.proppatch_body([("caldesc", text), ("comment", text), ("displayname", text.split("\n")[0])]))
             finally:
                 srv.stop()
             if not srv.up:
